@@ -24,10 +24,11 @@ The changes below were written by fresh sub-agents that were given only the text
 `/repo` (nothing from `/verif`). Each was confirmed in a scratch worktree (`lib/seedtest.py`): it applies to `/repo`'s
 HEAD, the 45 tests still pass with it, its demonstration passes without it and fails with it. Then every quick check was
 run against the changed tree (harness built against the scratch worktree through cargo's `paths` override; `/repo` itself
-is never touched) and the checks that exited 1 with a `VIOLATION` line were recorded. After the last strengthening, the
-check of each change's own property was run once more against it with the final machinery (all 116); for the other checks
-the table shows the outcome of the last full evaluation of that change (batches 5-7 were evaluated against their own
-property's check only). Each change is kept under
+is never touched) and the checks that exited 1 with a `VIOLATION` line were recorded. At the end of batch 7 the
+check of each change's own property was run once more against it with the machinery of that time (all 116); for the other
+checks the table shows the outcome of the last full evaluation of that change (batches 5-8 were evaluated against their own
+property's check only). Batch 8 (34 changes, numbered 9-10, for C15 / C17 7-8) was evaluated once while it was being
+worked on; the 10 it missed at first were evaluated again after the strengthenings listed below. Each change is kept under
 `seeded/<property>-<n>/` (`patch.diff`, `demo.rs`, `meta.json` with the full per-check outcome).
 
 %d changes; %d are reported by the check of the property they were written against, %d by at least one check.
@@ -74,6 +75,14 @@ was strengthened (never by loosening a check):
 | C11-8 (an IPFIX message whose header equals the previous one's in the same call is dropped as a retransmission) | header fields were always random | twin header-only messages in chained sequences; export time / sequence / domain repeated now and then |
 | C12-7 (sorted copy of the allowed set refreshed only when its size changes) | the set was only ever narrowed or widened | a member of the set is swapped for another number between two calls |
 | C08-6 (thread-local export scratch keeps the surplus records of an over-full structure) | only in-domain structures were exported | structures with count != number of records exported in between (no verdict on them) |
+| C17-8 (feature off: a template with an unknown field type is reported but not cached, so a superseded definition stays live) | every IPFIX cache difference between the two builds matched the coarse signature of the known finding KF-c17-ipfix-templates-after-unknown-field-set and was printed as `KNOWN-FINDING` | `CacheDiffWhy` in `TraceEq.tla`: only ids defined behind an undecodable set, for which the feature-off build holds what it held before the call or a definition it reported in it, are the known finding; any other difference is `ipfix:unexplained` |
+| C10-10 (address fields consume the declared length, re-export writes 4 / 16 bytes) | a data set under unsupported widths is explained by "a lossy kind is present"; hostile templates nearly always contained one | templates made only of lossless kinds (addresses, unsigned numbers, opaque bytes) at widths they do not naturally have, in `hostile` |
+| C04-9, C06-10 (memoised V9 record size survives define / data / options template / define shorter / data; or a redefinition with the same field count) | a 4-5 step history on one id: the exhaustive cache model visits every (cache, packet) pair once, not every sequence, and 60 random walks rarely hit it; C06 did not claim a structure finding | life-cycle models `MC_Life9` / `MC_LifeX` (history in the VIEW: every sequence of 5 (thorough: 6) packets over one id is a vector); `RedefFindings` attributes to C06 a data set of a redefined id that is not decoded as its latest definition says |
+| C04-10 (V9 protocol byte 255 decoded as Unknown) | `ProtoNameOk` accepted unknown / reserved / unassigned for all of 145..255 | 255 must be named Reserved (its IANA keyword); this exposed that V5/V7 records named it Unknown (fix `64f2fd1`) |
+| C01-9 (a filtered IPFIX message is stepped over by its length word: length 0 never ends) | the framing alphabet had a length below 16 only as 9 | `PktIx_L0` in `MC_Framing` (under the allowed sets that filter version 10); hang budget and CPU-time watchdog in the harness |
+| C11-10 (IPFIX sets read past the end of the message into the next packet) | no message whose last set runs past the end of the message | `PktIx_Over` in `MC_Framing`; overrunning last sets in the chained sequences of the rounds driver |
+| C03-10 (V7 record bytes computed in 16 bits: counts >= 1261 wrap) | counts beyond a datagram appeared only over empty or tiny bodies | `bigcount_session` (truncate driver): counts around 65536/48 and 65536/52, their doubles, 32768, 65535, over bodies of exactly the wrapped length and a few records more |
+| C15-7, C15-8 (parser state cloned before every packet; per-record capacity taken from the announced field count) | a large cache was only followed by template sets; no template announced more fields than it carries | scale shapes 10 (wide templates in both protocols, then one minimal packet and datagrams packed with minimal packets) and 11 (IPFIX template announcing 4 096 / 65 535 fields with one present, then hundreds of records) |
 
 | change | what it does | what it needs to manifest | confirmed | checks that report a VIOLATION | own property's check |
 |---|---|---|---|---|---|
